@@ -12,6 +12,7 @@ import (
 	"encoding/hex"
 	"fmt"
 	"strconv"
+	"strings"
 	"sync"
 	"time"
 
@@ -481,6 +482,8 @@ func (ch *c13Chain) liarBlock(kind string, h int64) *types.Block {
 			return ch.blocks[h]
 		}
 		slots := c13SlotsOfKind(kind, c13Pows(ch.valsAt(h-1)), ch.genSlots(h-1))
+		// named by the slot pattern: two kinds that yield the same pattern yield the same bytes
+		id = "S" + strings.Join(slots, "") + "@" + strconv.FormatInt(h, 10)
 		nb = c13WithLastCommit(ch.blocks[h], ch.buildCommit(h-1, slots))
 	default:
 		return nil
